@@ -264,7 +264,9 @@ def main(argv=None):
         return replay(prop, args)
     t0 = time.time()
     n = prop.n_cases(args.tier)
-    nshards = max(1, min(NPROC, getattr(prop, 'max_shards', NPROC), n))
+    # the number of worker processes (= interpreter environments, see below) does not depend on the machine: 16 (fewer only for
+    # tiny runs); VERIF_NPROC merely limits how many of them run at the same time
+    nshards = max(1, min(16, getattr(prop, 'max_shards', 16), n))
     aggs = []
     shard_failures = []
     if args.inline:
@@ -291,6 +293,8 @@ def main(argv=None):
                    '--seed', str(args.seed), '--shard', str(s), '--nshards', str(nshards),
                    '--out', out]
             log = open(os.path.join(tmp, 'shard%d.log' % s), 'w')
+            while sum(1 for _, _, p_, _ in procs if p_.poll() is None) >= max(1, NPROC):
+                time.sleep(0.05)
             procs.append((s, out, subprocess.Popen(cmd, env=env, cwd=tmp, stdout=log,
                                                    stderr=subprocess.STDOUT), log))
         deadline = time.time() + SHARD_TIMEOUT[args.tier]
